@@ -1841,3 +1841,116 @@ func ruleCompletionStateValidated(c *Ctx) {
 	c.count("completion_request_sites", n)
 	c.floor("front-end sites submitting a completion", n, 4)
 }
+
+// ---- library parsers that panic on some input ----
+
+// panickyParsers: third-party parsers known to panic (not return an error) on some inputs. The
+// contract is read from the library source in the module cache, one reason per row.
+var panickyParsers = map[string]string{
+	"github.com/robfig/cron/v3.Parser.Parse":  "slices the spec at the first space after a TZ= / CRON_TZ= prefix without checking that there is one (spec[eq+1:i] with i == -1)",
+	"github.com/robfig/cron/v3.ParseStandard": "calls Parser.Parse",
+}
+
+// ruleLibraryPanics (C13): a call of such a parser on run-time data sits in a function that
+// recovers and reports the panic as its error result; otherwise a client string ("TZ=UTC" as a
+// schedule's cron) panics the goroutine that validates or evaluates it (the gRPC server has no
+// recovery interceptor, and the schedule sweep runs on the kernel goroutine).
+func ruleLibraryPanics(c *Ctx) {
+	n := 0
+	for _, pk := range c.P.Roots {
+		if strings.Contains(pk.PkgPath, "/test") || pk.PkgPath == pkgPb {
+			continue
+		}
+		info := pk.TypesInfo
+		for _, fd := range allFuncDecls(pk) {
+			if fd.Body == nil || isTestFile(c.P, fd.Pos()) {
+				continue
+			}
+			for _, call := range callsInDeep(fd.Body) {
+				fn, ok := calleeOf(info, call).(*types.Func)
+				if !ok || fn.Pkg() == nil {
+					continue
+				}
+				name := fn.Pkg().Path() + "." + fn.Name()
+				if sig := fn.Type().(*types.Signature); sig.Recv() != nil {
+					name = fn.Pkg().Path() + "." + namedName(sig.Recv().Type()) + "." + fn.Name()
+				}
+				why, ok := panickyParsers[name]
+				if !ok {
+					continue
+				}
+				allConst := true
+				for _, a := range call.Args {
+					if tv, ok := info.Types[a]; !ok || tv.Value == nil {
+						allConst = false
+					}
+				}
+				if allConst {
+					continue
+				}
+				n++
+				key := fmt.Sprintf("library-panics/%s.%s/%s", pk.Name, funcName(fd), fn.Name())
+				c.check(recoversIntoError(info, fd, call), key, call.Pos(),
+					"the enclosing function recovers a panic of "+fn.Name()+" and reports it as its error result",
+					fn.Pkg().Name()+"."+fn.Name()+" "+why+": it panics on some inputs, and "+pk.Name+"."+funcName(fd)+" applies it to run-time data ("+exprString(call)+") without recovering — a client string can crash the goroutine that parses it")
+			}
+		}
+	}
+	c.count("panicky_parser_calls", n)
+	c.floor("calls of a library parser that can panic", n, 1)
+}
+
+// recoversIntoError: before the call, at the top level of fd's body, a function literal is
+// deferred that calls recover() and assigns a named error result of fd.
+func recoversIntoError(info *types.Info, fd *ast.FuncDecl, call *ast.CallExpr) bool {
+	var errResults []types.Object
+	if fd.Type.Results != nil {
+		for _, f := range fd.Type.Results.List {
+			for _, nm := range f.Names {
+				if o := info.Defs[nm]; o != nil && isErrorType(o.Type()) {
+					errResults = append(errResults, o)
+				}
+			}
+		}
+	}
+	if len(errResults) == 0 {
+		return false
+	}
+	for _, st := range fd.Body.List {
+		if st.Pos() > call.Pos() {
+			break
+		}
+		ds, ok := st.(*ast.DeferStmt)
+		if !ok {
+			continue
+		}
+		lit, ok := ast.Unparen(ds.Call.Fun).(*ast.FuncLit)
+		if !ok {
+			continue
+		}
+		recovers, assigns := false, false
+		ast.Inspect(lit.Body, func(x ast.Node) bool {
+			switch y := x.(type) {
+			case *ast.CallExpr:
+				if id, ok := ast.Unparen(y.Fun).(*ast.Ident); ok && id.Name == "recover" {
+					if _, isBuiltin := info.Uses[id].(*types.Builtin); isBuiltin {
+						recovers = true
+					}
+				}
+			case *ast.AssignStmt:
+				for _, l := range y.Lhs {
+					for _, o := range errResults {
+						if isObj(info, l, o) {
+							assigns = true
+						}
+					}
+				}
+			}
+			return true
+		})
+		if recovers && assigns {
+			return true
+		}
+	}
+	return false
+}
